@@ -107,4 +107,7 @@ run C12 && mut C12 x/subscription/keeper/subscription.go '	sub.MonthCuLeft = sub
 run C12 && mut C12 x/subscription/keeper/subscription.go '	sub.DurationBought = duration
 	sub.DurationLeft += duration' '	sub.DurationBought = duration
 	sub.DurationLeft = duration'
+run C07 && mut C07 x/dualstaking/keeper/delegate.go '			entry.Freeze()
+' ''
+run C07 && mut C07 x/dualstaking/keeper/delegate.go '				metadata.TotalDelegations, err = metadata.TotalDelegations.SafeSub(amount)' '				metadata.TotalDelegations, err = metadata.TotalDelegations.SafeSub(amount.SubAmount(sdk.OneInt()))'
 exit 0
